@@ -565,6 +565,13 @@ func (lb *LoadBalancer) IsBackendHealthy(backend *Backend) bool {
 	return isHealthy
 }
 
+// markedHealthy reports the health flag of the backend
+func (backend *Backend) markedHealthy() bool {
+	backend.Mutex.RLock()
+	defer backend.Mutex.RUnlock()
+	return backend.IsHealthy
+}
+
 // IncrementConnections increments the active connection count for a backend
 func (backend *Backend) IncrementConnections() {
 	atomic.AddInt32(&backend.ActiveConnections, 1)
@@ -672,6 +679,17 @@ func (lb *LoadBalancer) handleRequest(w http.ResponseWriter, r *http.Request, st
 
 // findHealthyBackend attempts to find a healthy backend with retries
 func (lb *LoadBalancer) findHealthyBackend(r *http.Request) *Backend {
+	// Let every backend whose unhealthy window has elapsed become eligible again before
+	// the strategy looks at the health flags. The flag is only cleared lazily by
+	// IsBackendHealthy, and strategies that filter on the flag would otherwise never
+	// offer an ejected backend again unless active health checks are enabled.
+	lb.mutex.RLock()
+	backends := lb.strategy.GetBackends()
+	lb.mutex.RUnlock()
+	for _, backend := range backends {
+		lb.IsBackendHealthy(backend)
+	}
+
 	for i := 0; i < 3; i++ { // Try up to 3 times to find a healthy backend
 		backend := lb.NextBackend(r)
 		if backend == nil {
